@@ -298,6 +298,21 @@ def post_variations(rng, cfg):
                 else:
                     new.append(pn)
             e["mgr_port_protocol"] = new
+    if cfg["network_type"] == "narrow-wide" and rng.random() < 0.06:
+        # a subsystem that uses one of the two buses only: no endpoint lists a protocol of the other kind, whose
+        # protocols then have to say which way they point (as terapool.yml does for its unused narrow protocols)
+        drop = rng.choice(["wide", "narrow"])
+        kinds = {p["name"]: p.get("type") for p in cfg["protocols"]}
+        ok = all(any(kinds.get(pn) != drop for pn in e.get(k, [])) for e in cfg["endpoints"]
+                 for k in ("mgr_port_protocol", "sbr_port_protocol") if e.get(k))
+        if ok:
+            for e in cfg["endpoints"]:
+                for k in ("mgr_port_protocol", "sbr_port_protocol"):
+                    if e.get(k):
+                        e[k] = [pn for pn in e[k] if kinds.get(pn) != drop]
+            for p in cfg["protocols"]:
+                if p.get("type") == drop and "direction" not in p:
+                    p["direction"] = "input" if p["name"].endswith("_in") else "output"
     if rng.random() < 0.03 and len(cfg["endpoints"]) > 2:
         # an unpopulated slot: an endpoint without any port
         cands = [e for e in cfg["endpoints"] if "array" not in e]
@@ -596,6 +611,14 @@ def gen_tree(rng, algo, nettype, tree=None, per=None, flip=None):
         ep = mk_endpoint(rng, nettype, alloc, e)
         eps.append(ep)
         cc = {"src": rname, "dst": e, "src_lvl": 0}
+        conns.append(cc if rng.random() < 0.6 else flip_conn(cc))
+    if len(tree) >= 2 and rng.random() < 0.4:
+        # one more endpoint on a router below the root, addressed by its full index (one entry per level)
+        lvl = rng.randint(1, len(tree) - 1)
+        idx = [rng.randrange(t) for t in tree[:lvl + 1]]
+        nm_extra = next(x for x in NAME_POOL if all(x != e["name"] for e in eps))
+        eps.append(mk_endpoint(rng, nettype, alloc, nm_extra))
+        cc = {"src": nm_extra, "dst": rname, "dst_idx": idx}
         conns.append(cc if rng.random() < 0.6 else flip_conn(cc))
     return finish(rng, cfg, eps, [{"name": rname, "tree": tree}], conns)
 
